@@ -85,7 +85,7 @@ fn tm_contains_bind(tm: &Tm) -> bool {
         Tm::Bind(..) => true,
         Tm::Ref(_) | Tm::Const(_) | Tm::LhsConst(_) | Tm::Shared(_) | Tm::ScopedVar(_) => false,
         Tm::Map(_, a) | Tm::MapCap(_, a, _) => tm_contains_bind(a),
-        Tm::Map2(_, a, b) | Tm::Scratch(a, b) => tm_contains_bind(a) || tm_contains_bind(b),
+        Tm::Map2(_, a, b) | Tm::Scratch(a, b) | Tm::Keep(a, b) => tm_contains_bind(a) || tm_contains_bind(b),
         Tm::Fold(_, _, ts) => ts.iter().any(|t| tm_contains_bind(t)),
     }
 }
@@ -196,10 +196,11 @@ impl Gen {
                 self.tm(w, rng, depth - 1, level, in_shared),
                 self.tm(w, rng, depth - 1, level, in_shared),
             )),
-            8 => Rc::new(Tm::Scratch(
-                self.tm(w, rng, depth - 1, level, in_shared),
-                self.tm(w, rng, depth - 1, level, in_shared),
-            )),
+            8 => {
+                let (a, b) = (self.tm(w, rng, depth - 1, level, in_shared), self.tm(w, rng, depth - 1, level, in_shared));
+                // dropped on the spot, or leaked through a side channel (and then adoptable)
+                if rng.chance(1, 2) { Rc::new(Tm::Scratch(a, b)) } else { Rc::new(Tm::Keep(a, b)) }
+            }
             9 => {
                 let n = 1 + rng.below(3);
                 Rc::new(Tm::Fold(f2(rng), rng.range(0, 3), (0..n).map(|_| self.tm(w, rng, depth - 1, level, in_shared)).collect()))
@@ -399,6 +400,17 @@ impl Gen {
                 if rng.chance(1, 6) {
                     // bind returning its own input
                     table[n - 1] = Rc::new(Tm::Ref(lhs));
+                }
+                if rng.chance(1, 6) {
+                    // every run hands back the very same pre-existing node, and leaks a node it
+                    // built on the way: the leaked nodes of earlier runs must still die
+                    if let Some(x) = self.pick_clean(w, rng) {
+                        for t in table.iter_mut() {
+                            let side = if tm_contains_bind(t) { self.tm(w, rng, 1, 0, false) } else { t.clone() };
+                            let side = if tm_contains_bind(&side) { Rc::new(Tm::MapCap(F2::Add, Rc::new(Tm::Const(1)), 0)) } else { side };
+                            *t = Rc::new(Tm::Keep(side, Rc::new(Tm::Ref(x))));
+                        }
+                    }
                 }
                 Kind::Bind(lhs, table)
             }
